@@ -303,6 +303,17 @@ def run(ctx):
         d_ = roles(ctx, v).drain
         resets = [x for x in own_nodes(d_.node) if isinstance(x, ast.Assign) and isinstance(x.targets[0], ast.Attribute)
                   and x.targets[0].attr in ("_raise_depth",) and isinstance(x.value, ast.Constant) and x.value.value == 0]
+        # any other plain assignment lowers the counter as well (restoring a value saved before the macrostep, say): the chain that is
+        # still queued is then never counted
+        lowered = [x for x in own_nodes(d_.node) if isinstance(x, ast.Assign) and isinstance(x.targets[0], ast.Attribute)
+                   and x.targets[0].attr in ("_raise_depth",) and x not in resets]
+        for x in lowered:
+            quiescent = any(("_event_queue" in norm(a) and ("empty" in norm(a) or "qsize" in norm(a) or "not self._event_queue" in norm(a))) for a, pol in guards_at(d_, x))
+            c.ob("R4", quiescent, d_, f"counter-restore:{norm(x.value)[:30]}",
+                 "the chain counter is lowered only when nothing is queued" if quiescent else
+                 f"'{stmt_text(x)}' in {d_.short} takes the chain counter back to an earlier value while the events the macrostep raised are still queued "
+                 f"(e.g. in the handler that contains a failed macrostep): a chain whose every link raises its own trigger and then fails is never counted, "
+                 f"the breaker never trips and the run loop never yields", x)
         for x in resets:
             atoms = guards_at(d_, x)
             in_breaker = any("limit" in norm(a) and pol for a, pol in atoms)
